@@ -19,16 +19,24 @@ from ..microai.poly import Poly, Rat, to_poly, num_den
 from ..rules import vpsc_siblings
 
 
+PROG = [None]
+
+
+def D(cls, fields):
+    from ..microai.interp import default_obj
+    return default_obj(PROG[0], cls, fields) if PROG[0] is not None else Obj(cls, fields)
+
+
 def mkvar(ns, i, scaled):
     s = Poly.var("s%d" % i) if scaled else Fraction(1)
-    return Obj(ns + "::Variable", {"id": i, "desiredPosition": Poly.var("d%d" % i), "finalPosition": Fraction(0),
+    return D(ns + "::Variable", {"id": i, "desiredPosition": Poly.var("d%d" % i), "finalPosition": Fraction(0),
                                    "weight": Poly.var("w%d" % i), "scale": s, "offset": Poly.var("o%d" % i), "block": None,
                                    "visited": False, "fixedDesiredPosition": False, "in": Vec([], ns + "::Constraint *"),
                                    "out": Vec([], ns + "::Constraint *")})
 
 
 def mkcon(ns, l, r, i, equality=False):
-    c = Obj(ns + "::Constraint", {"left": l, "right": r, "gap": Poly.var("g%d" % i), "lm": Poly.var("lm_unset%d" % i), "timeStamp": 0,
+    c = D(ns + "::Constraint", {"left": l, "right": r, "gap": Poly.var("g%d" % i), "lm": Poly.var("lm_unset%d" % i), "timeStamp": 0,
                                   "active": True, "equality": equality, "unsatisfiable": False, "needsScaling": True, "creator": None})
     l.f["out"].items.append(c)
     r.f["in"].items.append(c)
@@ -36,8 +44,8 @@ def mkcon(ns, l, r, i, equality=False):
 
 
 def mkblock(ns, vs, scaled):
-    b = Obj(ns + "::Block", {"vars": Vec(list(vs), ns + "::Variable *"), "posn": Poly.var("posn"),
-                             "ps": Obj(ns + "::PositionStats", {"scale": Poly.var("S") if scaled else Fraction(1),
+    b = D(ns + "::Block", {"vars": Vec(list(vs), ns + "::Variable *"), "posn": Poly.var("posn"),
+                             "ps": D(ns + "::PositionStats", {"scale": Poly.var("S") if scaled else Fraction(1),
                                                                 "AB": Fraction(0), "AD": Fraction(0), "A2": Fraction(0)}),
                              "deleted": False, "timeStamp": 0, "in": None, "out": None, "blocks": None})
     from ..microai.poly import r_add, r_mul, r_div
@@ -404,6 +412,7 @@ def rule_refine_rescan(chk, prog):
 
 def run(chk):
     prog = chk.load()
+    PROG[0] = prog
     rule_block_optimum(chk, prog)
     rule_minlm_argmin(chk, prog)
     rule_refine_rescan(chk, prog)
